@@ -163,6 +163,7 @@ func runScenario(sc *scenario) (res runResult) {
 // ---------------------------------------------------------------- Coq emission
 
 type emitter struct {
+	seqs  []string // C17: indices of the runs that deliver one activity repeatedly
 	hist  []string // C05: (initial outbox items, ids of the accepted posts in order, final outbox items)
 	strs  map[string]int
 	jsons map[string]int
@@ -354,6 +355,9 @@ func (e *emitter) file(runs []string) string {
 	b.WriteString(e.defs.String())
 	b.WriteString("Definition observed : list run := [\n")
 	b.WriteString(strings.Join(runs, ";\n"))
+	b.WriteString("\n].\n")
+	b.WriteString("Definition sequences : list (list nat) := [\n")
+	b.WriteString(strings.Join(e.seqs, ";\n"))
 	b.WriteString("\n].\n")
 	b.WriteString("Definition histories : list (list json * list string * list json) := [\n")
 	b.WriteString(strings.Join(e.hist, ";\n"))
